@@ -547,11 +547,19 @@ func parseActions(logger debuglog.Logger, actions string) ([]ruleAction, error) 
 	afterKey := -1  // index after last char of key and before first char of value
 
 	inQuotes := false
+	// escaped: the previous character is a backslash that is not itself escaped
+	escaped := len(actions) > 0 && actions[0] == '\\'
 
 	for i := 1; i < len(actions); i++ {
 		c := actions[i]
-		if actions[i-1] == '\\' {
+		if escaped {
 			// Escaped character, no need to process
+			escaped = false
+			continue
+		}
+		if c == '\\' {
+			// an escaped backslash (msg:'C:\\') does not escape what follows it
+			escaped = true
 			continue
 		}
 		if c == '\'' {
